@@ -1,6 +1,8 @@
 (* Non-vacuity examples and the refutation witness for C20. *)
 From Coq Require Import List String Bool ZArith QArith Permutation Lia.
-From PAFC20 Require Import Gen Model Proofs1 Proofs2 Proofs3 Proofs4.
+From Coq Require Import Floats.PrimFloat.
+From PAFCommon Require Import PyFloat Float64Order.
+From PAFC20 Require Import Gen Model Proofs1 Proofs2 Proofs3 Proofs4 Proofs5.
 Import ListNotations.
 Open Scope list_scope.
 Open Scope string_scope.
@@ -11,10 +13,11 @@ Proof.
   constructor; intros.
   - apply Z.eqb_refl.
   - rewrite Z.eqb_sym. assumption.
-  - apply Z.eqb_eq in H, H0. apply Z.eqb_eq. congruence.
+  - apply Z.eqb_eq in H2, H3. apply Z.eqb_eq. congruence.
   - destruct (Z.leb_spec a b); [left; reflexivity | right; apply Z.leb_le; lia].
-  - apply Z.leb_le in H, H0. apply Z.leb_le. lia.
-  - apply Z.leb_le in H, H0. apply Z.eqb_eq. lia.
+  - apply Z.leb_le in H2, H3. apply Z.leb_le. lia.
+  - apply Z.leb_le in H1, H2. apply Z.eqb_eq. lia.
+  - reflexivity.
 Qed.
 
 (* a three-point series over Z, supplied out of order; the "routine" is piecewise-constant
@@ -141,3 +144,150 @@ Proof. vm_compute. reflexivity. Qed.
 Example dict_known_point_either_way :
   interp_at Z.leb Z.eqb (fun z => z) left_value TF true [gd 0 100; gd 10 150; gd 20 200] ["t"] (TF 10%Z) = OSame 1.
 Proof. vm_compute. reflexivity. Qed.
+
+(* ---------- binary64: the instance the correspondence runs; hypotheses = no NaN (Proofs5) ---------- *)
+Definition gf (t c : float) : tree float := TO [("t", TF t); ("centre", TF c)].
+(* a "routine" that shows which x and y it was handed: y of the largest abscissa not above v, else the first y *)
+Definition left_value_F : list float -> list float -> float -> option float :=
+  fix go xs ys v := match xs, ys with
+                    | x :: xs', y :: ys' => match go xs' ys' v with
+                                            | Some r => if PrimFloat.leb (hd x xs') v then Some r else Some y
+                                            | None => Some y
+                                            end
+                    | _, _ => None
+                    end.
+Definition runF (insts : list (tree float)) (qv : tree float) :=
+  interp_at PrimFloat.leb PrimFloat.eqb Z2F left_value_F TF true insts ["t"] qv.
+
+Definition ks_zero : list float := [1; neg_zero; -2]%float.
+Definition series_zero : list (tree float) := [gf 1 10; gf neg_zero 20; gf (-2) 30]%float.
+Definition ks_inf : list float := [1; infinity; neg_infinity; 0]%float.
+Definition series_inf : list (tree float) := [gf 1 10; gf infinity 20; gf neg_infinity 30; gf 0 40]%float.
+
+Lemma no_nan_dec l : nonan_b l = true -> no_nan l.
+Proof. apply nonan_b_sound. Qed.
+
+(* the hypotheses of the binary64 theorems hold of series containing -0.0 and the infinities *)
+Example f64_hypotheses_zero :
+  keys_of Z2F ["t"] series_zero = Some ks_zero /\ no_nan ks_zero /\ distinct PrimFloat.eqb ks_zero /\
+  same_shape (fpaths (gf 0 0)) series_zero.
+Proof.
+  split; [reflexivity|]. assert (N : no_nan ks_zero) by (apply no_nan_dec; vm_compute; reflexivity).
+  split; [exact N|]. split; [apply (distinct_b_sound _ N); vm_compute; reflexivity|].
+  intros t [<-|[<-|[<-|[]]]]; repeat split; reflexivity.
+Qed.
+
+Example f64_hypotheses_inf :
+  keys_of Z2F ["t"] series_inf = Some ks_inf /\ no_nan ks_inf /\ distinct PrimFloat.eqb ks_inf /\
+  same_shape (fpaths (gf 0 0)) series_inf.
+Proof.
+  split; [reflexivity|]. assert (N : no_nan ks_inf) by (apply no_nan_dec; vm_compute; reflexivity).
+  split; [exact N|]. split; [apply (distinct_b_sound _ N); vm_compute; reflexivity|].
+  intros t [<-|[<-|[<-|[<-|[]]]]]; repeat split; reflexivity.
+Qed.
+
+(* -0.0 == 0.0: a query at +0.0 (float or int 0) returns the instance whose abscissa is -0.0, although the two floats differ *)
+Example f64_known_point_signed_zero :
+  runF series_zero (TF 0%float) = OSame 1 /\ runF series_zero (TI 0%Z) = OSame 1 /\
+  PrimFloat.eqb neg_zero 0%float = true /\ neg_zero <> 0%float.
+Proof.
+  split; [vm_compute; reflexivity|]. split; [vm_compute; reflexivity|]. split; [reflexivity|].
+  apply f64_zero_eqb_neg_zero.
+Qed.
+
+(* a -0.0 / +0.0 pair of abscissae is ONE dict key (not `distinct`): the later instance takes the earlier key *)
+Example f64_signed_zero_pair_collides :
+  distinct_b PrimFloat.eqb [neg_zero; 0]%float = false /\
+  map fst (vm_build PrimFloat.eqb [neg_zero; 0]%float [gf neg_zero 1; gf 0 2]%float) = [neg_zero] /\
+  interp_at PrimFloat.leb PrimFloat.eqb Z2F left_value_F TF true [gf neg_zero 1; gf 0 2]%float ["t"] (TF neg_zero) = OSame 1.
+Proof. repeat split; vm_compute; reflexivity. Qed.
+
+(* infinite abscissae are ordinary members of the order: sorted first / last, known points, off-node queries answered *)
+Example f64_infinite_abscissae :
+  sort_keys PrimFloat.leb ks_inf = [neg_infinity; 0; 1; infinity]%float /\
+  runF series_inf (TF infinity) = OSame 1 /\ runF series_inf (TF neg_infinity) = OSame 2 /\
+  runF series_inf (TF 0.5%float) = ONew (gf 0.5 40) /\
+  runF (rev series_inf) (TF 0.5%float) = ONew (gf 0.5 40) /\
+  runF series_inf (TF 7%float) = ONew (gf 7 10).
+Proof. repeat split; vm_compute; reflexivity. Qed.
+
+Example f64_defined_hypotheses_hold :
+  forall ys, List.length ys = List.length ks_inf -> exists y, left_value_F (sort_keys PrimFloat.leb ks_inf) ys 0.5%float = Some y.
+Proof.
+  intros [|a [|b [|c [|d [|e ys]]]]] H; try discriminate. vm_compute. eexists. reflexivity.
+Qed.
+
+(* ---------- why the hypothesis is needed: NaN ---------- *)
+Definition ks_nan : list float := [1; nan; 0]%float.
+Definition series_nan : list (tree float) := [gf 1 10; gf nan 20; gf 0 30]%float.
+
+Lemma distinct_ks_nan : distinct PrimFloat.eqb ks_nan.
+Proof.
+  split.
+  - assert (A : forall a b : float, fbits_eqb a b = false -> a <> b).
+    { intros a b H E. subst b. unfold fbits_eqb in H. destruct (FloatOps.Prim2SF a) as [[|]|[|]| |[|] m e]; simpl in H; try discriminate.
+      - rewrite Pos.eqb_refl, Z.eqb_refl in H. discriminate.
+      - rewrite Pos.eqb_refl, Z.eqb_refl in H. discriminate. }
+    repeat constructor; simpl; intuition; try (revert H0; apply A; vm_compute; reflexivity); try (revert H; apply A; vm_compute; reflexivity).
+  - intros a b [<-|[<-|[<-|[]]]] [<-|[<-|[<-|[]]]] NE; try (exfalso; apply NE; reflexivity); vm_compute; reflexivity.
+Qed.
+
+(* the unrelativised laws fail on floats: NaN is not equal to itself and not comparable *)
+Lemma F_order_everything_refuted : ~ order_ok PrimFloat.leb PrimFloat.eqb.
+Proof. intro H. pose proof (eqb_refl _ _ _ H nan eq_refl) as X. vm_compute in X. discriminate. Qed.
+
+(* sorted() by insertion is order dependent as soon as a NaN is among the keys *)
+Lemma sorted_abscissae_nan_refuted :
+  exists ks ks', distinct PrimFloat.eqb ks /\ Permutation ks ks' /\ sort_keys PrimFloat.leb ks <> sort_keys PrimFloat.leb ks'.
+Proof.
+  exists ks_nan, [0; 1; nan]%float. split; [exact distinct_ks_nan|]. split.
+  - unfold ks_nan. apply Permutation_sym. apply (perm_trans (l' := [1; 0; nan]%float)); [apply perm_swap|]. constructor. apply perm_swap.
+  - intro H. assert (X : flist_eqb (sort_keys PrimFloat.leb ks_nan) (sort_keys PrimFloat.leb [0; 1; nan]%float) = true) by (rewrite H; vm_compute; reflexivity).
+    vm_compute in X. discriminate.
+Qed.
+
+(* C20_defined_f64 without its no-NaN hypothesis: every other hypothesis holds, the routine is total, the query raises
+   (model: a NaN key is never found again by ==; CPython finds it by object identity -- NaN abscissae are outside the
+   correspondence as well as outside the theorems) *)
+Lemma defined_nan_refuted :
+  exists (insts : list (tree float)) (ks : list float) (F : list path) (qv : tree float) (v : float),
+    insts <> [] /\ keys_of Z2F ["t"] insts = Some ks /\ distinct PrimFloat.eqb ks /\ same_shape F insts /\
+    num_of Z2F qv = Some v /\
+    (forall ys, List.length ys = List.length ks -> exists y, left_value_F (sort_keys PrimFloat.leb ks) ys v = Some y) /\
+    interp_at PrimFloat.leb PrimFloat.eqb Z2F left_value_F TF true insts ["t"] qv = OErr.
+Proof.
+  exists series_nan, ks_nan, (fpaths (gf 0 0)), (TF 0.5%float), 0.5%float.
+  split; [discriminate|]. split; [reflexivity|]. split; [exact distinct_ks_nan|]. split.
+  - intros t [<-|[<-|[<-|[]]]]; repeat split; reflexivity.
+  - split; [reflexivity|]. split; [|vm_compute; reflexivity].
+    intros [|a [|b [|c [|d ys]]]] H; try discriminate. vm_compute. eexists. reflexivity.
+Qed.
+
+(* a known point stated with Leibniz equality of the abscissa and the value fails at NaN *)
+Lemma known_point_identity_nan_refuted :
+  exists (insts : list (tree float)) (ks : list float) (i : nat) (inst : tree float) (k : float),
+    keys_of Z2F ["t"] insts = Some ks /\ distinct PrimFloat.eqb ks /\ nth_error insts i = Some inst /\
+    abscissa Z2F ["t"] inst = Some k /\
+    interp_at PrimFloat.leb PrimFloat.eqb Z2F left_value_F TF true insts ["t"] (TF k) <> OSame i.
+Proof.
+  exists series_nan, ks_nan, 1%nat, (gf nan 20), nan.
+  split; [reflexivity|]. split; [exact distinct_ks_nan|]. split; [reflexivity|]. split; [reflexivity|].
+  vm_compute. discriminate.
+Qed.
+
+(* the run-time decision of the hypotheses: true on the series above, false as soon as a NaN or a repeated key occurs *)
+Example hyps_F_examples :
+  hyps_F series_zero ["t"] (TF 0.5%float) = true /\ hyps_F series_inf ["t"] (TF infinity) = true /\
+  hyps_F series_nan ["t"] (TF 0.5%float) = false /\ hyps_F series_zero ["t"] (TF nan) = false /\
+  hyps_F [gf neg_zero 1; gf 0 2]%float ["t"] (TF 1%float) = false /\
+  laws_F series_nan ["t"] (TF nan) = true /\ laws_F series_inf ["t"] (TF 0.5%float) = true.
+Proof. repeat split; vm_compute; reflexivity. Qed.
+
+(* a NaN QUERY value needs no hypothesis: it equals no abscissa, so the query is off-node in every order and the
+   same leaves are computed (C20_order_free_f64 has no hypothesis on the value) *)
+Example f64_nan_query_is_off_node :
+  match runF series_zero (TF nan), runF (rev series_zero) (TF nan) with
+  | ONew r, ONew r' => get [KS "centre"] r = get [KS "centre"] r' /\ get [KS "centre"] r = Some (TF 30%float)
+  | _, _ => False
+  end.
+Proof. vm_compute. split; reflexivity. Qed.
